@@ -162,7 +162,8 @@ def rerun(ROOT, BUILD, ENV, path, run_group):
     if u.get("slice"):
         import slicer
         slicer.run_unit(unit, u, registry.REPO, os.path.join(BUILD, u.get("gen_unit", unit), "gen"))
-    shutil.copyfile(os.path.join(registry.REPO, "Cargo.lock"), os.path.join(crate, "Cargo.lock"))
+    lock = os.path.join(registry.REPO, "Cargo.lock")
+    shutil.copyfile(lock if os.path.exists(lock) else "/repo/Cargo.lock", os.path.join(crate, "Cargo.lock"))
     tests = re.findall(r"(/// Test generated for harness.*?\n}\n)", text, re.S)
     os.makedirs(os.path.join(BUILD, unit), exist_ok=True)
     pcmd, ptext = _native_run(ROOT, BUILD, ENV, u, unit, tests, run_group, "rerun", 2400)
